@@ -9,8 +9,10 @@ only if it really is reached behind one of the IsValid gates — check the call 
 """
 import sys
 
-def cls(fn, fld):
+def cls(fn, fld, root="_"):
     pkg, f = fn.split(":")
+    if fld == "ProposedHeader" and root == "prevBlock":
+        return "nil-checked", "the predecessor may be an empty block (ProposedHeader nil): every prevBlock.ProposedHeader.X sits behind `prevBlock.ProposedHeader == nil ||` / `!= nil &&` in the same condition; the guard count is pinned"
     modelled = {
      ("blockchain/types:Header.Height","ProposedHeader"),("blockchain/types:Header.Height","EmptyBlockHeader"),
      ("blockchain/types:Header.Hash","ProposedHeader"),("blockchain/types:Header.Hash","EmptyBlockHeader"),
@@ -55,10 +57,10 @@ def cls(fn, fld):
         return "stored-chain", "block / header read back from the node's own database or already inserted into the chain"
     return "post-gate", "reached only with objects that passed Header.IsValid / Block.IsValid / BlockProposal.IsValid / Vote.IsValid / blockRange.IsValid (the gates of Model/Messages.lean); see DESIGN C12"
 
-out = ["# C12 dereference census expectation: function<TAB>field<TAB>sites<TAB>class<TAB>reason",
+out = ["# C12 dereference census expectation: function<TAB>field<TAB>root variable<TAB>sites<TAB>nil comparisons of root..field in the function<TAB>class<TAB>reason",
        "# classes: modelled (must be in Msg.modelledSites) | nil-checked | nil-safe-callee | post-gate | local-object | stored-chain | encoder | tx-validator | post-validate | not-network | type-expr"]
 for l in open(sys.argv[1]):
-    fn, fld, n = l.rstrip("\n").split("\t")
-    c, why = cls(fn, fld)
-    out.append("\t".join([fn, fld, n, c, why]))
+    fn, fld, root, n, g = l.rstrip("\n").split("\t")
+    c, why = cls(fn, fld, root)
+    out.append("\t".join([fn, fld, root, n, g, c, why]))
 print("\n".join(out))
